@@ -501,7 +501,7 @@ class Algebra(Entry):
         r = ctx.rng
         cs = []
         if round == 0:
-            ns = range(1, 7) if not ctx.quick() else (1, 2, 5)
+            ns = range(1, 7) if not ctx.quick() else (1, 4)
             for n in ns:
                 bounds = [None] + list(range(-n - 2, n + 3))
                 for a in bounds:
@@ -658,7 +658,7 @@ def gen_cases(ctx, round):
         tables.append((fixed_table(5), "fixed5"))
         tables.append((fixed_table(1), "fixed1"))
         tables.append((fixed_table(4 if quick else 6), "fixedN"))
-    for _ in range(ctx.n(3, 12) if round == 0 else 2):
+    for _ in range(ctx.n(3, 8) if round == 0 else 2):
         text = r.random() < 0.6
         tables.append((rand_table(r, r.choice([1, 2, 3, 4, 5, 6, 6, 9]) if not quick else r.choice([2, 3, 5, 6]),
                                   r.randint(1, 5), text, big=True), "random-text" if text else "random-binary"))
@@ -669,6 +669,8 @@ def gen_cases(ctx, round):
         delims = [None] + ([d for d in DELIMS if d is not None] if text_ok else [])
         if quick and tfam != "fixed5":
             delims = [None] + ([r.choice(DELIMS[1:])] if text_ok else [])
+        elif not quick and not tfam.startswith("fixed"):
+            delims = [None] + (r.sample(DELIMS[1:], 2) if text_ok else [])
         if tfam == "random-text":
             delims = [d for d in delims if d is not None] or [None]
         cols_all = col_pool(names)
@@ -816,7 +818,16 @@ def run(ctx, replay=None):
     WORK["dir"] = os.path.join(ctx.work, "files")
     core.proof_step(ctx, "C02", core.ALLOW_DISCRETE)
     regenerate(ctx)
+    # smaller case files than the runner's default (400): the eight entries run one after the other, so
+    # parallelism has to come from the shards of each entry
+    orig = core.coq_eval
+
+    def sharded(workdir, preamble, terms, **kw):
+        kw.setdefault("shard", 100)
+        return orig(workdir, preamble, terms, **kw)
+    core.coq_eval = sharded
     try:
         differential(ctx, PRE, ENTRIES, replay)
     finally:
+        core.coq_eval = orig
         shutil.rmtree(WORK["dir"], ignore_errors=True)
